@@ -9,6 +9,7 @@ import (
 	"os"
 	"path/filepath"
 	"runtime"
+	"sync"
 	"testing"
 
 	"github.com/keep-network/keep-common/pkg/persistence"
@@ -139,6 +140,145 @@ func TestVerif_C39_TecdsaDisk(t *testing.T) {
 		r.Count("handed_out", int64(len(handed)))
 		if i%97 == 0 {
 			r.Sample(map[string]interface{}{"case": desc, "handed_out_fixtures": len(handed), "files_left": len(left)})
+		}
+	})
+}
+
+// TestVerif_C39_TecdsaDiskOverlap: a restart that overlaps the previous
+// instance. Two pools are started, one after the other, on the same
+// directory (the first one is still alive and holds the records it loaded),
+// and both are drained, sequentially or concurrently. Across the two
+// instances no pre-parameter may be handed out twice, and what was handed out
+// is gone from the disk.
+func TestVerif_C39_TecdsaDiskOverlap(t *testing.T) {
+	r := verifkit.Start(t, "C39", "tecdsa_disk_overlap")
+	defer r.Finish()
+	r.SetRule("real disk persistence handle + real preParamsStorage + two real pools started one after the other on a directory holding 1-3 complete pre-parameter files (restart while the previous instance is still alive); both pools are drained with GetNow in a PRNG interleaving (one goroutine) or concurrently; across both instances every fixture may be handed out at most once, and a handed-out one is gone from the disk. Non-trivial: both instances had loaded at least one common record.")
+	fx, err := c39LoadFixtures()
+	if err != nil {
+		r.Inconclusive("fixtures: " + err.Error())
+		return
+	}
+	root := r.TmpDir("disk-overlap")
+	n := r.N(120, 3000)
+	verifkit.Parallel(n, 0, func(i int) {
+		rng := r.SubRand("overlap", i)
+		nFiles := 1 + rng.Intn(len(fx))
+		if nFiles > 3 {
+			nFiles = 3
+		}
+		concurrent := rng.Intn(2) == 0
+		desc := fmt.Sprintf("overlap#%d: %d stored records, two live pools on one directory, concurrent=%v", i, nFiles, concurrent)
+		dir := filepath.Join(root, fmt.Sprintf("o%d", i))
+		if err := os.MkdirAll(dir, 0o755); err != nil {
+			r.Inconclusive(err.Error())
+			return
+		}
+		defer os.RemoveAll(dir)
+		die := make(chan struct{})
+		defer close(die)
+		gen := func(ctx context.Context) *PreParams {
+			<-die
+			runtime.Goexit()
+			return nil
+		}
+		lg := &c39Logger{}
+		mk := func() (*generator.ParameterPool[PreParams], bool) {
+			handle, err := persistence.NewBasicDiskHandle(dir)
+			if err != nil {
+				r.Inconclusive("disk handle: " + err.Error())
+				return nil, false
+			}
+			storage := newPreParamsStorage(handle, lg)
+			var pool *generator.ParameterPool[PreParams]
+			if r.Guard("tecdsa:overlap:start:", desc, func() {
+				pool = generator.NewParameterPool[PreParams](lg, &generator.Scheduler{}, &storage, 3, gen, 0)
+			}) {
+				return nil, false
+			}
+			return pool, true
+		}
+		{
+			handle, err := persistence.NewBasicDiskHandle(dir)
+			if err != nil {
+				r.Inconclusive("disk handle: " + err.Error())
+				return
+			}
+			storage := newPreParamsStorage(handle, lg)
+			for k := 0; k < nFiles; k++ {
+				cp := *fx[k]
+				if _, err := storage.Save(newPreParams(&cp)); err != nil {
+					r.Inconclusive("Save on disk failed: " + err.Error())
+					return
+				}
+			}
+		}
+		a, ok := mk()
+		if !ok {
+			return
+		}
+		b, ok := mk()
+		if !ok {
+			return
+		}
+		var mu sync.Mutex
+		count := map[int]int{}
+		take := func(p *generator.ParameterPool[PreParams]) bool {
+			var pp *PreParams
+			var gerr error
+			if r.Guard("tecdsa:overlap:getnow:", desc, func() { pp, gerr = p.GetNow() }) {
+				return false
+			}
+			if errors.Is(gerr, generator.ErrEmptyPool) {
+				return false
+			}
+			if gerr != nil || pp == nil || pp.data == nil {
+				return true
+			}
+			if id := c39Identify(fx, pp.data); id >= 0 {
+				mu.Lock()
+				count[id]++
+				mu.Unlock()
+			}
+			return true
+		}
+		if concurrent {
+			var wg sync.WaitGroup
+			for _, p := range []*generator.ParameterPool[PreParams]{a, b} {
+				wg.Add(1)
+				go func(p *generator.ParameterPool[PreParams]) {
+					defer wg.Done()
+					for k := 0; k < 5 && take(p); k++ {
+					}
+				}(p)
+			}
+			wg.Wait()
+		} else {
+			aLive, bLive := true, true
+			for k := 0; k < 12 && (aLive || bLive); k++ {
+				if (rng.Intn(2) == 0 && aLive) || !bLive {
+					aLive = take(a)
+				} else {
+					bLive = take(b)
+				}
+			}
+		}
+		r.Case(desc, true)
+		for id, c := range count {
+			r.Count("handed_out", int64(c))
+			if c > 1 {
+				r.Violation("tecdsa:handed-out-twice-across-overlapping-instances", fmt.Sprintf("fixture %d was handed out %d times by two pools started on the same directory", id, c), desc, nil)
+			}
+		}
+		left, _ := os.ReadDir(filepath.Join(dir, dirName))
+		for _, f := range left {
+			bts, _ := os.ReadFile(filepath.Join(dir, dirName, f.Name()))
+			var pp PreParams
+			if err := pp.Unmarshal(bts); err == nil {
+				if id := c39Identify(fx, pp.data); id >= 0 && count[id] > 0 {
+					r.Violation("tecdsa:handed-out-still-stored", fmt.Sprintf("fixture %d was handed out but its file %s is still on disk", id, f.Name()), desc, nil)
+				}
+			}
 		}
 	})
 }
